@@ -558,6 +558,11 @@ class Replayer:
                 if st["id"]:
                     if new is None:
                         raise Mismatch("result", None, "object", "call returned no object")
+                    for oid, other in self.heap.items():
+                        if other is new:      # objects are mutable (normalize, update, cache fills): a result that IS one of
+                            # the live objects makes every later in-place operation on either act on both
+                            raise Mismatch("result.alias", f"the returned object is heap object {oid}", "a new object",
+                                           "the call returned one of its operands instead of a new object")
                     self.heap[st["id"]] = new
                     self.expect[st["id"]] = st["o"]
                     self.flags[st["id"]] = make_flags(st)
